@@ -161,9 +161,23 @@ def _f_kw(*a, **k): return [list(a), sorted(k.items())]
 def gen_callable(rng):
     """(function, args, kwargs, settle): `settle` (or None) is run after the function was decorated and
     before it is called - it gives a closure variable the value it has when the task is created"""
-    k = rng.randrange(8)
+    k = rng.randrange(10)
     n = rng.randint(0, 9)
     if k == 0: return (lambda x: x * 2), (n,), {}, None
+    if k == 8:
+        # works on its arguments in place (legal: every task owns the arguments it was created with)
+        def push(l, v, d=None):
+            l.append(v)
+            if d is not None: d['seen'] = d.get('seen', 0) + 1
+            return [list(l), d]
+        return push, ([1, 2], n), {'d': {'seen': 0}}, None
+    if k == 9:
+        # keeps state of its own between calls: every task starts from the state it was created with
+        calls = [0]
+        def counting(x):
+            calls[0] += 1
+            return x + 10 * calls[0]
+        return counting, (n,), {}, None
     if k == 1:
         m = rng.randint(1, 5)
         def clos(x, y=1): return x * m + y
@@ -210,22 +224,33 @@ def fn_case(rp, seed, i):
     bad = []
     for how in ('PythonTask', 'pythontask'):
         f, a, k, settle = gen_callable(random.Random('%s-fn-%d' % (seed, i)))
+        got2 = want2 = None
         try:
             if how == 'PythonTask':
                 if settle: settle()
-                want = f(*a, **k)
                 s = rp.PythonTask(f, a, k)
             else:
                 dec = rp.PythonTask.pythontask(f)
                 if settle: settle()
-                want = f(*a, **k)
                 s = dec(*a, **k)
+            want = copy.deepcopy(f)(*copy.deepcopy(a), **copy.deepcopy(k)) if getattr(f, '__name__', '') != 'counting' else a[0] + 10
             g, a2, k2 = rp.PythonTask.get_func_attr(s)
-            got = g(*a2, **(k2 or {}))
+            got = copy.deepcopy(g(*a2, **(k2 or {})))
+            # the same payload decoded once more (a worker serving a bag of identical tasks), after the consumer of
+            # the first decode has used what it was given: arguments changed in place, a keyword slot filled
+            for x in list(a2) + list((k2 or {}).values()):
+                if isinstance(x, list): x.append('used')
+                if isinstance(x, dict): x['used'] = True
+            a2.append('used')
+            if k2 is not None: k2['comm'] = 'used'
+            g, a3, k3 = rp.PythonTask.get_func_attr(s)
+            got2, want2 = g(*a3, **(k3 or {})), want
         except Exception as e:
             got = 'raised %r' % e
         if got != want:
             bad.append((how, got, want))
+        elif got2 != want2:
+            bad.append((how + ' (same payload decoded a second time)', got2, want2))
     return bad, (a, k, settle is not None)
 
 
